@@ -165,6 +165,9 @@ func cmdRun(args []string) int {
 	}
 	r.S = s
 	defer s.Close()
+	if t == "thorough" {
+		harnessBudget = 20 * time.Minute
+	}
 	if spec.RunFn != nil {
 		spec.RunFn(r)
 	} else {
